@@ -52,6 +52,16 @@ def families(s: int):
             inits = [nh.from_array(sc, "s"), nh.from_array(bi, "b")]
         m = _model([oh.make_node("GroupNormalization", ["x", "s", "b"], ["y"], num_groups=2, epsilon=1e-5)], ins, [("y", F, [1, 4, 2])], inits, s)
         out.append((f"GroupNormalization params={'inputs' if sym_params else 'initializers'}", m, [(n, dt, tuple(sh)) for n, dt, sh in ins]))
+    # GroupNormalization with non-default attributes (they must survive the adapter)
+    for eps in (0.5, 1e-3):
+        m = _model([oh.make_node("GroupNormalization", ["x", "s", "b"], ["y"], num_groups=2, epsilon=eps)], [("x", F, [1, 4, 2])], [("y", F, [1, 4, 2])],
+                   [nh.from_array(sc, "s"), nh.from_array(bi, "b")], s)
+        out.append((f"GroupNormalization epsilon={eps}", m, [("x", F, (1, 4, 2))]))
+    # GroupNormalization whose input is declared with symbolic / unknown dims (per-group parameters need the channel count to convert)
+    for decl, tagd in ((["N", 4, 2], "batch symbolic"), ([1, "C", 2], "channels symbolic"), (None, "no shape")):
+        m = _model([oh.make_node("GroupNormalization", ["x", "s", "b"], ["y0"], num_groups=2), oh.make_node("Relu", ["y0"], ["y"])],
+                   [("x", F, decl)], [("y", F, None)], [nh.from_array(sc, "s"), nh.from_array(bi, "b")], s)
+        out.append((f"GroupNormalization with x declared {tagd}", m, [("x", F, (1, 4, 2))]))
     # GroupNormalization inside an If branch + unchanged ops + initializer captured
     w = nh.from_array(np.array([1.0, -1.0], dtype=np.float32), "w")
     tb = oh.make_graph([oh.make_node("GroupNormalization", ["x", "s", "b"], ["t"], num_groups=2)], "then", [], [oh.make_tensor_value_info("t", F, [1, 4, 2])])
@@ -78,6 +88,11 @@ def families(s: int):
         m = _model([oh.make_node("GridSample", ["x", "g"], ["y"], mode=(mode if s >= 20 else old))],
                    [("x", F, [1, 1, 2, 2]), ("g", F, [1, 1, 2, 2])], [("y", F, [1, 1, 1, 2])], [], s)
         out.append((f"GridSample mode={mode}", m, [("x", F, (1, 1, 2, 2)), ("g", F, (1, 1, 2, 2))]))
+        # every other attribute must survive the adapter: padding_mode x align_corners (larger image so that borders matter)
+        for pm, ac in (("border", 0), ("reflection", 1), ("zeros", 1), ("border", 1)):
+            m = _model([oh.make_node("GridSample", ["x", "g"], ["y"], mode=(mode if s >= 20 else old), padding_mode=pm, align_corners=ac)],
+                       [("x", F, [1, 1, 3, 3]), ("g", F, [1, 2, 2, 2])], [("y", F, [1, 1, 2, 2])], [], s)
+            out.append((f"GridSample mode={mode} padding_mode={pm} align_corners={ac}", m, [("x", F, (1, 1, 3, 3)), ("g", F, (1, 2, 2, 2))]))
     # unchanged ops with initializer and an initializer-input
     m = _model([oh.make_node("Add", ["x", "k"], ["a"]), oh.make_node("Mul", ["a", "d"], ["b"]), oh.make_node("ReduceSum", ["b", "ax"], ["y"], keepdims=0)],
                [("x", F, [2, 3]), ("d", F, [3])], [("y", F, [2])],
@@ -240,6 +255,8 @@ def main(tier: str, only=None) -> int:
                 if m.get("entry") and m["entry"] != r["entry"]:
                     continue
                 if m.get("text_contains") and m["text_contains"] not in text:
+                    continue
+                if m.get("model_contains") and not any(mc in r["model"] for mc in m["model_contains"]):
                     continue
                 run.known(k["text"])
                 return
